@@ -564,7 +564,29 @@ pub fn emit_hist_fault<W: Write>(c: &mut Cases<W>, cfg: &FileCfg, es: &[(Vec<u8>
         }
         (r.file_version() as u32, r.compression_type() as u8, r.len())
     })) {
-        Ok(Ok((ver, codec, len))) => c.line(&format!("meta {} {} {}", ver, codec, len)),
+        Ok(Ok((ver, codec, len))) => {
+            c.line(&format!("meta {} {} {}", ver, codec, len));
+            // what the reader reports does not change by being turned into a cursor (Deref), used, and turned
+            // back into a reader
+            let seen = catch(|| -> Result<Vec<(u32, u8, u64)>, String> {
+                let mut cur = Reader::new(Cursor::new(file)).map_err(|e| err_class(&e))?.into_cursor().map_err(|e| err_class(&e))?;
+                let mut v = vec![(cur.file_version() as u32, cur.compression_type() as u8, cur.len())];
+                let _ = cur.move_on_first().map_err(|e| err_class(&e))?;
+                v.push((cur.file_version() as u32, cur.compression_type() as u8, cur.len()));
+                let r = cur.into_reader();
+                v.push((r.file_version() as u32, r.compression_type() as u8, r.len()));
+                Ok(v)
+            });
+            match seen {
+                Ok(Ok(v)) => {
+                    if v.iter().any(|x| *x != (ver, codec, len)) {
+                        println!("DIRECT fail the reader opened as (version {}, codec {}, count {}) reports {:?} through its cursor / after into_reader", ver, codec, len, v);
+                    }
+                }
+                Ok(Err(e)) => println!("DIRECT fail into_cursor / move_on_first on an opened file failed: {}", e),
+                Err(_) => println!("DIRECT fail into_cursor / move_on_first / into_reader panicked"),
+            }
+        }
         Ok(Err(e)) => c.line(&format!("meta err {} -", err_class(&e))),
         Err(_) => c.line("meta panic - -"),
     }
@@ -838,7 +860,55 @@ fn collect_iter(mut next: impl FnMut() -> Result<Option<(Vec<u8>, Vec<u8>)>, Str
     }
 }
 
+/// An entry far above any "reasonable" block size (a block holds at least one whole entry whatever the block
+/// size, and the format puts no bound on it): 17 MiB (thorough: also 70 MiB) between two small entries, for
+/// every codec; scans, ranges and prefixes in both directions must yield it (implementation only: the
+/// theorems cover such sizes, the extracted model does not execute them)
+fn big_entry_direct<W: Write>(c: &mut Cases<W>, thorough: bool) {
+    let sizes: &[usize] = if thorough { &[17 << 20, 70 << 20] } else { &[17 << 20] };
+    for &size in sizes {
+        let big: Vec<u8> = (0..size).map(|x| ((x % 251) ^ (x >> 13)) as u8).collect();
+        for codec in CODECS {
+            let cfg = FileCfg { codec, level: 1, block_size: 4096, unclamped: false, interval: None, levels: (size % 3) as u8 };
+            let es = vec![(vec![1u8, 1], vec![5u8; 10]), (vec![2u8, 0], big.clone()), (vec![2u8, 7], vec![6u8; 10]), (vec![3u8], vec![])];
+            let file = match write_file(&cfg, &es) {
+                WriteOutcome::File(f) => f,
+                _ => { println!("DIRECT fail a file with a {} MiB value (codec {}) could not be written", size >> 20, codec as u8); continue; }
+            };
+            c.bump("iter.big_entry_files", 1);
+            let want_all: Vec<(Vec<u8>, Vec<u8>)> = es.clone();
+            let want_p2: Vec<(Vec<u8>, Vec<u8>)> = es[1..3].to_vec();
+            let got = catch(|| -> Result<Vec<Vec<(Vec<u8>, Vec<u8>)>>, String> {
+                let mut outs = Vec::new();
+                macro_rules! drain { ($it:expr) => {{ let mut it = $it; let mut v = Vec::new();
+                    while let Some((k, val)) = it.next().map_err(|e| err_class(&e))? { v.push((k.to_vec(), val.to_vec())); if v.len() > 8 { break; } } v }} }
+                let rd = || Reader::new(Cursor::new(&file[..])).map_err(|e| err_class(&e));
+                outs.push(drain!(rd()?.into_prefix_iter(vec![2u8]).map_err(|e| err_class(&e))?));
+                outs.push(drain!(rd()?.into_rev_prefix_iter(vec![2u8]).map_err(|e| err_class(&e))?));
+                outs.push(drain!(rd()?.into_range_iter::<_, Vec<u8>>(..).map_err(|e| err_class(&e))?));
+                outs.push(drain!(rd()?.into_rev_range_iter::<_, Vec<u8>>(..).map_err(|e| err_class(&e))?));
+                Ok(outs)
+            });
+            let rev = |v: &Vec<(Vec<u8>, Vec<u8>)>| { let mut r = v.clone(); r.reverse(); r };
+            match got {
+                Ok(Ok(outs)) => {
+                    let wants = [want_p2.clone(), rev(&want_p2), want_all.clone(), rev(&want_all)];
+                    for (qi, (o, w)) in outs.iter().zip(wants.iter()).enumerate() {
+                        if o != w {
+                            println!("DIRECT fail file with a {} MiB value, codec {}: query {} (0 prefix, 1 reverse prefix, 2 full range, 3 reverse full range) yields {} entries instead of {} or other bytes",
+                                     size >> 20, codec as u8, qi, o.len(), w.len());
+                        }
+                    }
+                }
+                Ok(Err(e)) => println!("DIRECT fail file with a {} MiB value, codec {}: an iterator returned {}", size >> 20, codec as u8, e),
+                Err(_) => println!("DIRECT fail file with a {} MiB value, codec {}: an iterator panicked", size >> 20, codec as u8),
+            }
+        }
+    }
+}
+
 pub fn generate_iter<W: Write>(c: &mut Cases<W>, rng: &mut Rng, thorough: bool, which: &str) {
+    big_entry_direct(c, thorough);
     let nfiles = if thorough { 2500 } else { 130 };
     let per_file = 24;
     for i in 0..nfiles {
